@@ -115,6 +115,34 @@ theorem trySend_reg (cfg : Cfg) (s : St) (x : Nat) :
   unfold trySend
   by_cases ho : s.isOpen <;> by_cases hc : s.pending.length < cfg.cap <;> simp [ho, hc, push]
 
+/-- Bound and exact size of every truncated segment: a truncation happens iff the queue holds exactly `cap`. -/
+structure InvCap (cfg : Cfg) (s : St) : Prop where
+  bound : s.pending.length ≤ cfg.cap
+  segs : ∀ seg ∈ s.truncations, seg.length = cfg.cap
+
+theorem invCap_step (cfg : Cfg) (hcap : 1 ≤ cfg.cap) (s : St) (l : Label) (s' : St) (h : InvCap cfg s)
+    (hs : step cfg s l = some s') : InvCap cfg s' := by
+  obtain ⟨h1, h2⟩ := h
+  refine ⟨capacity_step cfg hcap s l s' h1 hs, ?_⟩
+  cases l
+  case send x =>
+    step_elim hs
+    unfold send
+    by_cases hc : s.pending.length ≥ cfg.cap <;> by_cases ho : s.isOpen <;>
+      simp [hc, ho, truncate, push] <;>
+      first
+      | assumption
+      | (intro seg hseg; rcases hseg with hseg | hseg
+         · exact h2 seg hseg
+         · subst hseg; omega)
+  case trySend x =>
+    step_elim hs
+    unfold trySend
+    by_cases ho : s.isOpen <;> by_cases hc : s.pending.length < cfg.cap <;> simp [ho, hc, push] <;> assumption
+  all_goals
+    step_elim hs
+    all_goals simp_all
+
 /-! ### Retries re-deliver exactly the returned remainder (C06) -/
 
 structure InvRetry (s : St) : Prop where
